@@ -178,7 +178,7 @@ def tag_is_deprecated_check(hed_schema, tag_entry, attribute_name):
     """
     issues = []
     deprecated_version = tag_entry.attributes.get(attribute_name, "")
-    library_name = tag_entry.has_attribute(HedKey.InLibrary, return_value=True)
+    library_name = tag_entry.attributes.get(HedKey.InLibrary)
     if not library_name and not hed_schema.with_standard:
         library_name = hed_schema.library
     all_versions = get_hed_versions(library_name=library_name)
@@ -217,7 +217,7 @@ def conversion_factor(hed_schema, tag_entry, attribute_name):
         cf = float(cf.replace("^", "e"))
     except (ValueError, AttributeError):
         pass
-    if not isinstance(cf, float) or cf <= 0.0:
+    if not isinstance(cf, float) or not cf > 0.0:  # also rejects nan
         issues += ErrorHandler.format_error(SchemaAttributeErrors.SCHEMA_CONVERSION_FACTOR_NOT_POSITIVE,
                                             tag_entry.name,
                                             cf)
